@@ -69,7 +69,7 @@ func components(wl *CompileWL) [][]string {
 func genC16B(t *rapid.T) C16BCase {
 	var kinds []int
 	if rapid.IntRange(0, 2).Draw(t, "collide") > 0 {
-		kinds = []int{2, 3, 6}
+		kinds = []int{2, 3, 6, 7}
 	}
 	wl := genCompileWLKinds(t, 6, kinds)
 	// (An overriding descriptor.proto is an implicit dependency that is not
